@@ -9,6 +9,7 @@ def hook_commits():
 ENGINES = {
     "dbsim": ("engines/dbsim", "E1/E4: in-memory SimFs behind agdb's cfg(agdb_verif) file seam + FaultyStorage wrapper + reference model; real agdb storage, WAL, collections, graph, db, queries"),
     "raftsim": ("engines/raftsim", "E2: discrete-event network + virtual clock around the real agdb_server/src/raft.rs (copied at build time, Instant rewritten)"),
+    "c23miri": ("engines/c23miri", "E5: second phase of C23 - real agdb (DbFile, FileStorage, queries) on an in-memory file system, three reader threads, run under Miri's seeded scheduler (started by ./check C23 after the dbsim phase)"),
     "srvsim": ("engines/srvsim", "E3: the real agdb_server crate compiled in-process (symlink mirror + generated root), driven through its axum Router on a current_thread runtime"),
 }
 
@@ -43,9 +44,9 @@ CHECKS = {
          "Structure-biased mutations (bit flips, truncation, overwritten index/size/length fields, forged or garbage logs, random files) of clean and crash-snapshot images; every trial must end in Ok or Err: a panic is caught with its site, an abort or over-cap allocation kills the worker and is attributed to the trial.",
          "Hangs are observations, not violations (the statement does not cover them). Known findings (record-table sizing, a test-pinned panic) are listed in known_findings.jsonl and cut/recognised by call site.", "6/C07"),
 
- "C23": ("dbsim", "exploration", "deterministic simulation: reader threads under shuttle's seeded random and PCT schedulers, scheduling points inside every simulated open/seek/read",
+ "C23": ("dbsim", "exploration", "deterministic simulation: reader threads under shuttle's seeded random and PCT schedulers, scheduling points inside every simulated open/seek/read; second phase: the same scenario under Miri's seeded scheduler (preemption at any basic block; one -Zmiri-seed = one repeatable schedule)",
          "For seeded databases and read-query lists, 2-4 reader threads run under a controlled scheduler; every result must equal the sequential baseline and none may fail. Failures carry the shuttle schedule and replay exactly.",
-         "Readers only (documented usage). Interleaving is controlled at simulated I/O calls; code between two I/O calls runs atomically. std::sync::Mutex in FileStorage is only try_locked, so it needs no model.", "6/C23"),
+         "Readers only (documented usage). Phase 1 (dbsim/shuttle): interleaving is controlled at simulated I/O calls; code between two I/O calls runs atomically. Phase 2 (engines/c23miri, tools/c23_miri.sh; 12 Miri schedules quick / 96 thorough) removes that restriction for a small fixed scenario; it is skipped with a note in the evidence if `cargo +nightly miri` is not available.", "6/C23"),
 
  "C27": ("raftsim", "exploration", "deterministic simulation: the real raft.rs under a discrete-event adversarial network and a virtual clock, invariant checked after every event",
          "Seeded fault schedules (per-message drop/duplicate/delay-reorder, partitions and heals, forward clock jumps, stalled nodes, client appends at every node that believes it leads) over 3- and 5-node clusters; after every event no two nodes may be, or ever have been, leader for the same term.",
@@ -146,7 +147,8 @@ def main():
             "source_commits": hook_commits(),
             "add_only": True,
         },
-        "engines": [{"name": e, "path": ENGINES[e][0], "serves_properties": [c["property_id"] for c in checks if c["engine"] == e], "kind_free_text": ENGINES[e][1]} for e in used],
+        "engines": [{"name": e, "path": ENGINES[e][0], "serves_properties": [c["property_id"] for c in checks if c["engine"] == e], "kind_free_text": ENGINES[e][1]} for e in used]
+        + [{"name": "c23miri", "path": ENGINES["c23miri"][0], "serves_properties": ["C23"], "kind_free_text": ENGINES["c23miri"][1]}],
         "checks": checks,
         "not_applicable": na,
         "notes": "All checks are deterministic simulations with fault injection (DESIGN.md). VERIF_SEED (default 1) determines every run; exit 0 held / 1 VIOLATION line / 2 harness error. Known findings: /verif/known_findings.jsonl.",
